@@ -3,8 +3,52 @@ C12 — validation modes change the report, never the verdict; errors point at d
 Model: KinModel/Schema/Events.lean (mode-free event tree `events`, folds `firstErrL` / `collectL`).
 -/
 import KinModel.Schema.Events
+import KinModel.Schema.Defaults
 import KinModel.Props.C01
+import KinModel.Gen.ValidationOptions
+import KinModel.Gen.VisitSites
 namespace KinModel.Schema
+
+/-! ### T0 — the option space is the modelled one (regenerated tables) -/
+
+/-- the SchemaValidationOption constructors of openapi3 and the settings fields each writes: FailFast / MultiErrors are
+`Mode`; VisitAsRequest / VisitAsResponse, the two switch-offs, DisablePatternValidation and DefaultsSet are fields of
+`Env`; SetSchemaRegexCompiler is `Env.regex` (and the history of Props/C01); SetSchemaErrorMessageCustomizer only feeds
+`SchemaError.Error()`; EnableFormatValidation writes a field nobody reads (`format_switch_is_dead`). An option added
+to the source, or one that writes another field, breaks this obligation. -/
+theorem validation_options_are_the_modelled_ones :
+    Gen.validationOptions =
+      [⟨"FailFast", ["failfast=true"]⟩, ⟨"MultiErrors", ["multiError=true"]⟩,
+       ⟨"VisitAsRequest", ["asreq=true", "asrep=false"]⟩, ⟨"VisitAsResponse", ["asreq=false", "asrep=true"]⟩,
+       ⟨"EnableFormatValidation", ["formatValidationEnabled=true"]⟩,
+       ⟨"DisablePatternValidation", ["patternValidationDisabled=true"]⟩,
+       ⟨"DisableReadOnlyValidation", ["readOnlyValidationDisabled=true"]⟩,
+       ⟨"DisableWriteOnlyValidation", ["writeOnlyValidationDisabled=true"]⟩,
+       ⟨"DefaultsSet", ["defaultsSet=f"]⟩, ⟨"SetSchemaErrorMessageCustomizer", ["customizeMessageError=f"]⟩,
+       ⟨"SetSchemaRegexCompiler", ["regexCompiler=c"]⟩] := by decide
+
+/-- which visitor reads which setting: the mode flags are read by the visitors the event model covers and by nothing
+else; the request/response reading and the defaults only by the object visitor and the composition visitor (the deep
+copy per candidate); the customizer by every site that builds a SchemaError -/
+theorem settings_readers_are_the_modelled_ones :
+    Gen.settingsReads =
+      [("failfast", ["expectedType", "visitEnumOperation", "visitJSONArray", "visitJSONNull", "visitJSONNumber", "visitJSONObject",
+                     "visitJSONString", "visitNotOperation", "visitXOFOperations"]),
+       ("multiError", ["visitJSONArray", "visitJSONNumber", "visitJSONObject", "visitJSONString"]),
+       ("asreq", ["visitJSONObject", "visitXOFOperations"]), ("asrep", ["visitJSONObject", "visitXOFOperations"]),
+       ("formatValidationEnabled", []),
+       ("patternValidationDisabled", ["visitJSONString"]),
+       ("readOnlyValidationDisabled", ["visitJSONObject"]), ("writeOnlyValidationDisabled", ["visitJSONObject"]),
+       ("regexCompiler", ["visitJSONString"]), ("onceSettingDefaults", ["visitJSONObject"]), ("defaultsSet", ["visitJSONObject"]),
+       ("customizeMessageError", ["expectedType", "visitEnumOperation", "visitJSON", "visitJSONArray", "visitJSONNull", "visitJSONNumber",
+                                  "visitJSONObject", "visitJSONString", "visitNotOperation", "visitXOFOperations"])] := by decide
+
+/-- `EnableFormatValidation()` cannot influence a verdict: the field it sets is read nowhere in package openapi3 -/
+theorem format_switch_is_dead : Gen.settingsReads.lookup "formatValidationEnabled" = some [] := by decide
+
+/-- openapi3filter hands `MultiErrors()` to every schema visit exactly when `Options.MultiError` is set -/
+theorem every_visit_gets_multi :
+    Gen.visitSites.all (fun r => r.opts.contains "MultiErrors=if options.MultiError") = true := by decide
 
 /-! ### T1 — for EVERY trace the three folds agree on the verdict -/
 
